@@ -52,6 +52,15 @@ Definition clean (p : list N) : list N :=
            end
   end.
 
+(* path.Join(g, p) for two elements (go/src/path/path.go Join): empty elements are skipped, the rest
+   is joined with '/' and cleaned; all empty gives "".  Used by api.WithPrefix (server.go:214). *)
+Definition join2 (g p : list N) : list N :=
+  match g, p with
+  | [], [] => []
+  | [], _ => clean p
+  | _, _ => clean (g ++ slash :: p)
+  end.
+
 (* route[0] == '/' and the segments of route[1:]  (Tree.Add / Tree.Search entry checks) *)
 Definition req_segs (q : list N) : option (list seg) :=
   match q with
